@@ -1,11 +1,89 @@
 import HickoryVerif.Drv.Proto
+import HickoryVerif.Model.AuthZone
 
+/-!
+Case line (see `harness/src/props/c10.rs`):  `q <mode> <origin> <zone> <qname> <qtype> <do>`
+answer: `<RCODE> aa=<0|1> an=<rrsets> ns=<rrsets> ar=<rrsets>`.
+-/
 namespace HickoryVerif.Drv.C10
-open HickoryVerif HickoryVerif.Drv
+open HickoryVerif HickoryVerif.Drv HickoryVerif.AuthZone
 
 abbrev State := Unit
 def init : State := ()
 
-def step (s : State) (_toks : List String) : State × String := (s, "bad-op")
+def tyTable : List (String × Nat) :=
+  [("A", T_A), ("NS", T_NS), ("CNAME", T_CNAME), ("SOA", T_SOA), ("MX", T_MX), ("TXT", T_TXT),
+   ("AAAA", T_AAAA), ("DS", T_DS), ("ANY", T_ANY)]
+
+def parseTy (s : String) : Option Nat := (tyTable.find? (·.1 == s)).map (·.2)
+
+def showTy (t : Nat) : String :=
+  match tyTable.find? (·.2 == t) with
+  | some (s, _) => s
+  | none => "TYPE" ++ toString t
+
+/-- `a.b.example.` → labels (bytes); `.` is the root -/
+def parseLName (s : String) : Option LName :=
+  if s == "." then some []
+  else
+    let parts := s.splitOn "."
+    match parts.getLast? with
+    | some "" =>
+      let ls := parts.dropLast
+      if ls.any (·.isEmpty) then none else some (ls.map fun l => l.toList.map Char.toNat)
+    | _ => none
+
+def showLName (n : LName) : String :=
+  if n.isEmpty then "." else
+  String.join (n.map fun l => String.ofList (l.map Char.ofNat) ++ ".")
+
+def parseRd (s : String) : Option RData :=
+  match s.splitOn "@" with
+  | [t] => do pure { tag := ← t.toNat?, target := none }
+  | [t, n] => do pure { tag := ← t.toNat?, target := some (← parseLName n) }
+  | _ => none
+
+def parseRRset (s : String) : Option RRset :=
+  match s.splitOn "/" with
+  | [n, t, rds] => do
+    let rds ← (rds.splitOn "+").mapM parseRd
+    pure { name := ← parseLName n, type := ← parseTy t, rdatas := rds }
+  | _ => none
+
+def parseZone (s : String) : Option Zone :=
+  if s == "-" then some [] else (s.splitOn ";").mapM parseRRset
+
+def showRd (r : RData) : String :=
+  match r.target with
+  | some t => toString r.tag ++ "@" ++ showLName t
+  | none => toString r.tag
+
+def showRRset (r : RRset) : String :=
+  showLName r.name ++ "/" ++ showTy r.type ++ "/" ++ "+".intercalate (r.rdatas.map showRd)
+
+def showSection (l : List RRset) : String :=
+  if l.isEmpty then "-" else ";".intercalate (l.map showRRset)
+
+def showRcode : Rcode → String
+  | .noError => "NOERROR"
+  | .nxDomain => "NXDOMAIN"
+  | .refused => "REFUSED"
+
+def showResponse (r : Response) : String :=
+  showRcode r.rcode ++ " aa=" ++ showBool r.aa ++ " an=" ++ showSection r.answers ++
+    " ns=" ++ showSection r.authority ++ " ar=" ++ showSection r.additional
+
+def handle (toks : List String) : Option String :=
+  match toks with
+  | ["q", "u", origin, zone, qname, qtype, _do] => do
+    let origin ← parseLName origin
+    let z ← parseZone zone
+    let qn ← parseLName qname
+    let qt ← parseTy qtype
+    pure (showResponse (respond z origin { name := lowerName qn, type := qt }))
+  | _ => none
+
+def step (s : State) (toks : List String) : State × String :=
+  (s, (handle toks).getD "bad-op")
 
 end HickoryVerif.Drv.C10
